@@ -29,6 +29,52 @@ def normalize_out(value):
     return value
 
 
+# The documented signatures of the released API (parameter names after the leading ones the generators always pass
+# positionally, with their documented defaults).  Keyword arguments of a generated call are turned into positional ones in
+# this order for a share of the calls - handing over a documented default explicitly is the same request as leaving it out.
+SIGNATURES = {
+    'set': (2, [('expire', None), ('read', False), ('tag', None), ('retry', False)]),
+    'add': (2, [('expire', None), ('read', False), ('tag', None), ('retry', False)]),
+    'get': (1, [('default', None), ('read', False), ('expire_time', False), ('tag', False), ('retry', False)]),
+    'incr': (1, [('delta', 1), ('default', 0), ('retry', False)]),
+    'decr': (1, [('delta', 1), ('default', 0), ('retry', False)]),
+    'touch': (1, [('expire', None), ('retry', False)]),
+    'pop': (1, [('default', None), ('expire_time', False), ('tag', False), ('retry', False)]),
+    'delete': (1, [('retry', False)]),
+    'push': (1, [('prefix', None), ('side', 'back'), ('expire', None), ('read', False), ('tag', None), ('retry', False)]),
+    'pull': (0, [('prefix', None), ('default', (None, None)), ('side', 'front'), ('expire_time', False), ('tag', False),
+                 ('retry', False)]),
+    'peek': (0, [('prefix', None), ('default', (None, None)), ('side', 'front'), ('expire_time', False), ('tag', False),
+                 ('retry', False)]),
+    'peekitem': (0, [('last', True), ('expire_time', False), ('tag', False), ('retry', False)]),
+    'evict': (1, [('retry', False)]),
+    'cull': (0, [('retry', False)]),
+    'clear': (0, [('retry', False)]),
+    'stats': (0, [('enable', True), ('reset', False)]),
+}
+
+
+def spell_positionally(rng, op, args, kw):
+    """Return (args, kw) of the same call with a random share of its keyword arguments moved into positions."""
+    sig = SIGNATURES.get(op)
+    if sig is None or rng.random() < 0.5:
+        return args, kw
+    lead, rest = sig
+    args = tuple(args)
+    rest = rest[len(args) - lead:] if len(args) >= lead else None
+    if not rest:
+        return args, kw
+    present = [i for i, (n, _) in enumerate(rest) if n in kw]
+    if not present:
+        return args, kw
+    upto = rng.randrange(0, present[-1] + 2)           # how many of the remaining parameters go by position
+    kw = dict(kw)
+    extra = []
+    for n, dflt in rest[:upto]:
+        extra.append(kw.pop(n) if n in kw else dflt)
+    return args + tuple(extra), kw
+
+
 class CacheDriver:
     """kind: 'cache' | 'fanout'."""
 
@@ -66,6 +112,9 @@ class CacheDriver:
         self.evicted = 0
         self.shard_of = {}       # ident -> shard index (routing must be stable)
         self.block = None        # state of an open transaction block (C06)
+        import random
+        self.spell_rng = random.Random(0x5be11)     # which calls are spelled positionally (deterministic per driver)
+        self.positional_spellings = 0
 
     def close(self):
         for o in self.observers:
@@ -107,7 +156,10 @@ class CacheDriver:
             return out
         if op == 'expire' and self.kind == 'fanout':
             return r.expire()
-        return getattr(r, op)(*args, **kw)
+        pargs, pkw = spell_positionally(self.spell_rng, op, args, kw)
+        if len(pargs) != len(args):
+            self.positional_spellings += 1
+        return getattr(r, op)(*pargs, **pkw)
 
     def dump(self):
         out = []
